@@ -78,8 +78,8 @@ def r1(ctx):
     where = c.loc(fn, f.node)
     ctx.check("R02.1", "deconvolution:index-relation", sig == macsig.spec_deconv() and f.op == "+=", "index-relation:" + macsig.sig_str(sig), where, macsig.sig_str(sig),
               "Deconvolution::forward computes %s (%s); the transposed convolution cropped by the padding is %s" % (macsig.sig_str(sig), f.op, macsig.sig_str(macsig.spec_deconv())))
-    lows = sorted(str(macsig.rn(g, ren)) for g in f.guards if str(g).startswith("ge0("))
-    want = sorted([e1.cmp_atom("Ge", Rat.atom("X1") * macsig.S0 + Rat.atom("K2"), macsig.P0), e1.cmp_atom("Ge", Rat.atom("X2") * macsig.S1 + Rat.atom("K3"), macsig.P1)])
+    want = sorted([e1.cmp_atom("Ge", Rat.atom("X1") * macsig.S0 + Rat.atom("K2"), macsig.P0, integer=True), e1.cmp_atom("Ge", Rat.atom("X2") * macsig.S1 + Rat.atom("K3"), macsig.P1, integer=True)])
+    lows = sorted(x for x in (str(macsig.rn(g, ren)) for g in f.guards) if x in want)
     ups = [g for g in f.guards if str(g).startswith("and(")]
     ya = [v for h, v in ex.allocs.items() if ex.names[h] == f.target.name]
     ok_up = False
